@@ -12,7 +12,7 @@ Ops(o) ==
   << <<"C04_NoFabrication", C04_NoFabrication(o)>>, <<"C04_AtMostOnce", C04_AtMostOnce(o)>>,
      <<"C04_PerSenderOrder", C04_PerSenderOrder(o)>>, <<"C04_AllDelivered", C04_AllDelivered(o)>>,
      <<"C04_Intact", Intact(o)>>,
-     <<"C13_CleanEnd", C13_CleanEnd(o)>>, <<"C13_PeerObserves", C13_PeerObserves(o)>>, <<"C13_NoLeak", C13_NoLeak(o)>>, <<"C13_NoCrash", C13_NoCrash(o)>>,
+     <<"C13_CleanEnd", C13_CleanEnd(o)>>, <<"C13_PeerObserves", C13_PeerObserves(o)>>, <<"C13_InitiatorObserves", C13_InitiatorObserves(o)>>, <<"C13_NoLeak", C13_NoLeak(o)>>, <<"C13_NoCrash", C13_NoCrash(o)>>,
      <<"C06_QuietAfterEnd", C06_QuietAfterEnd(o)>>, <<"C06_NoSendAfterEnd", C06_NoSendAfterEnd(o)>>,
      <<"C17_Isolated", C17_Isolated(o)>> >>
 Report(n, o) ==
